@@ -128,6 +128,45 @@ fn intact(before: &OGraph, after: &OGraph, exempt_conflict: bool) -> Result<(), 
     Ok(())
 }
 
+/// Single assignment also holds for the attributes the executor writes itself: a configuration
+/// that gives two debug attributes the same name makes every `node` statement assign two
+/// different values to one attribute, which must fail.
+fn debug_attribute_name_clash(rng: &mut Rng, out: &mut Out) {
+    let text = "(module) { node n attr (n) k = 1 }\n";
+    let source = "x = 1\n";
+    let tree = parse_python(source);
+    let file = match exec::load(text) {
+        Loaded::Ok(f) => f,
+        _ => {
+            out.inconclusive("harness: directed program rejected");
+            return;
+        }
+    };
+    let functions = stdlib();
+    let vars = Variables::new();
+    let (l, v, m) = *rng.pick(&[("dbg", "dbg", "dbg_m"), ("dbg", "dbg_v", "dbg"), ("dbg_l", "dbg", "dbg"), ("dbg", "dbg", "dbg")]);
+    for lazy in [false, true] {
+        let mode = if lazy { "lazy" } else { "strict" };
+        let r = catch(|| {
+            let config = ExecutionConfig::new(&functions, &vars).lazy(lazy).debug_attributes(Identifier::from(l), Identifier::from(v), Identifier::from(m));
+            file.execute(&tree, source, &config, &NoCancellation).map(|g| g.pretty_print().to_string())
+        });
+        out.eval();
+        let case = json!({"dsl": text, "source": source, "mode": mode, "debug_attribute_names": [l, v, m]});
+        match r {
+            Err(p) => {
+                out.violation(&format!("C09:panic:{}", mode), &format!("{}: {}", p.location, p.message), case);
+                return;
+            }
+            Ok(Ok(g)) => {
+                out.violation(&format!("C09:conflict-accepted:{}:debug-attribute-names", mode), &format!("two debug attributes share a name, every node statement assigns it twice with different values, and execution succeeds: {}", crate::util::trunc(&g, 200)), case);
+                return;
+            }
+            Ok(Err(_)) => out.feat("debug_attribute_name_clash_rejected"),
+        }
+    }
+}
+
 impl Prop for C09 {
     fn id(&self) -> &'static str {
         "C09"
@@ -138,7 +177,11 @@ impl Prop for C09 {
             Tier::Thorough => 25_000,
         }
     }
-    fn run_case(&self, _cfg: &RunCfg, _idx: usize, rng: &mut Rng, out: &mut Out) {
+    fn run_case(&self, _cfg: &RunCfg, idx: usize, rng: &mut Rng, out: &mut Out) {
+        if idx % 40 == 7 {
+            debug_attribute_name_clash(rng, out);
+            return;
+        }
         let steps = rng.range(1, 3);
         let functions = stdlib();
         // all trees must outlive the graph
